@@ -1,5 +1,10 @@
+/-
+  C10 at whole-document level: the list rule on related states (`itemRewrite_sim`, `listItem_sim`,
+  `listContinue_sim`, `listLoop_sim`, `tightenItems_sim`, `list_sim`; relation and read lemmas:
+  `MdIt/Lemmas/C10DocCore.lean`).
+-/
 import MdIt.Lemmas.C10DocCore
-namespace MdIt.Block
+namespace MdIt.Block.LE
 open MdIt.Lines (LineOffset)
 variable {ρ : Nat → Nat → Prop} {G : Geo}
 
@@ -326,4 +331,4 @@ theorem list_sim (C : Ctx ρ G) {tok₁ tok₂ : Tok} (TK : TokSim ρ G tok₁ t
     srel_fields SA
     · exact S.children.push (NRel.mk (KRel.refl _) hr hc)
 
-end MdIt.Block
+end MdIt.Block.LE
